@@ -7,8 +7,8 @@
 package plugin
 
 //@ define LOG emits, last_level, last_msg, last_args
-//@ define START_EFFECTS heap, launches, kills, rf_calls, launched, cancelled, wg_count, hdata, open_files, sc_checks, sel_reached, conns_open, rd_done, $LOG
-//@ define CLIENT_EFFECTS $START_EFFECTS, yopens
+//@ define START_EFFECTS pool_der, heap, launches, kills, rf_calls, launched, cancelled, wg_count, hdata, open_files, sc_checks, sel_reached, conns_open, rd_done, $LOG
+//@ define CLIENT_EFFECTS $START_EFFECTS, yopens, yaccepts, tokens, creg
 //@ ghost launched: map[Int]Int
 //@ ghost sc_checks: Int
 
@@ -85,6 +85,11 @@ package plugin
 //@   requires !held(c.l)
 //@   modifies $START_EFFECTS
 //@   local sel_reached: Bool := false
+//@   after call generateCert#1 bind cpem: Slice := ret0
+//@   at call fmt.Sprintf#6 assert arg0 == "PLUGIN_CLIENT_CERT=%s" && len(arg1) == 1 && arg1[0] == iface(cpem)   [C12.env]
+//@   at store tls.Config.ClientAuth#1 assert value == 4   [C12.client]
+//@   at store tls.Config.MinVersion#1 assert value >= 771   [C12.client]
+//@   at call (*Client).loadServerCert#1 assert arg0 == parts[5]   [C12.pin]
 //@   loop#2 invariant forall j :: 0 <= j && j <= rangeindex ==> c.config.AllowedProtocols[j] != c.protocol
 //@   after call (*sync.Mutex).Lock#1 bind a0: Iface := c.address
 //@   after call (*sync.Mutex).Lock#1 bind l0: Int := launched[c]
@@ -148,22 +153,28 @@ package plugin
 //@   nopanic [C03.d]
 //@   nonblocking
 //@   requires conn != nil
-//@   modifies yopens
+//@   modifies yopens, yaccepts
 //@   loop#1 frame fresh_only
+//@   loop#1 invariant mux != nil && rangeindex + 1 <= 2 && yopens[mux] == rangeindex + 2 && len(stdstream) == 2 && fresh(stdstream)
+//@   loop#1 invariant forall j :: 0 <= j && j <= rangeindex ==> typeis(stdstream[j], "*yamux.Stream") && ystream_sess(unbox(stdstream[j], "*yamux.Stream")) == mux && ystream_ord(unbox(stdstream[j], "*yamux.Stream")) == j + 1
 //@   ensures result1 != nil ==> result0 == nil
 //@   ensures result1 == nil ==> result0 != nil && fresh(result0) && result0.plugins == plugins   [C02.plugins]
+//@   ensures result1 == nil ==> typeis(result0.stdout, "*yamux.Stream") && ystream_ord(unbox(result0.stdout, "*yamux.Stream")) == 1 && ysess_conn(ystream_sess(unbox(result0.stdout, "*yamux.Stream"))) == conn   [C11.wire-r]
+//@   ensures result1 == nil ==> typeis(result0.stderr, "*yamux.Stream") && ystream_ord(unbox(result0.stderr, "*yamux.Stream")) == 2 && ysess_conn(ystream_sess(unbox(result0.stderr, "*yamux.Stream"))) == conn   [C11.wire-r]
 
 //@ func (*RPCClient).SyncStreams
 //@   nopanic [C03.d]
 //@   nonblocking
 //@   modifies nothing
+//@   at go#1 assert arg1 == stdout && arg2 == c.stdout   [C11.wire-r]
+//@   at go#2 assert arg1 == stderr && arg2 == c.stderr   [C11.wire-r]
 //@   ensures result == nil
 
 //@ func newRPCClient
 //@   nopanic [C03.d]
 //@   nonblocking
 //@   requires c != nil && c.config != nil && c.address != nil && held(c.l)
-//@   modifies conns_open, yopens
+//@   modifies conns_open, yopens, yaccepts, tokens
 //@   at call NewRPCClient#1 assert arg1 == c.config.Plugins   [C02.plugins]
 //@   at call NewRPCClient#1 assert c.config.TLSConfig != nil ==> tls_cfg(arg0) == c.config.TLSConfig   [C12.wrap]
 //@   at call NewRPCClient#1 assert c.config.TLSConfig == nil ==> tls_cfg(arg0) == nil   [C12.wrap]
@@ -171,13 +182,27 @@ package plugin
 //@   ensures result1 != nil ==> result0 == nil
 //@   ensures result1 == nil ==> result0 != nil
 
+//@ func newGRPCStdioClient
+//@   nopanic [C03.d]
+//@   bounded peer-dead [C03.c]
+//@   requires log != nil
+//@   modifies heap_fresh, $LOG
+//@   at call (plugin.GRPCStdioClient).StreamStdio#1 assert arg0 == ctx   [C03.e]
+//@   ensures result1 != nil ==> result0 == nil
+//@   ensures result1 == nil ==> result0 != nil && fresh(result0) && result0.log == log
+//@   ensures result1 == nil && result0.stdioClient != nil ==> stdio_ctx(result0.stdioClient) == ctx   [C03.e]
+
 //@ func newGRPCClient
 //@   nopanic [C03.d]
 //@   nonblocking
-//@   requires c != nil && c.config != nil && c.address != nil && c.logger != nil && held(c.l)
-//@   modifies c.grpcMuxer, fields(c.grpcMuxerOnce), conns_open, $LOG
+//@   requires c != nil && valid_client(c) && c.address != nil && held(c.l)
+//@   modifies c.grpcMuxer, fields(c.grpcMuxerOnce), conns_open, $LOG, creg, yopens, yaccepts
+//@   at call dialGRPCConn#1 assert arg0 == c.config.TLSConfig   [C12.wrap]
+//@   at call newGRPCBroker#1 assert arg1 == c.config.TLSConfig   [C12.wrap]
+//@   at call newGRPCStdioClient#1 assert arg0 == doneCtx   [C03.e]
+//@   at go#3 assert arg1 == c.config.SyncStdout && arg2 == c.config.SyncStderr   [C11.wire-g]
 //@   ensures result1 != nil ==> result0 == nil
-//@   ensures result1 == nil ==> result0 != nil
+//@   ensures result1 == nil ==> result0 != nil && fresh(result0) && result0.doneCtx == doneCtx && result0.Plugins == c.config.Plugins && result0.broker != nil && result0.Conn != nil && result0.controller != nil   [C03.e] [C02.plugins]
 
 //@ func (*Client).Client
 //@   nopanic [C19.total] [C03.d]
@@ -299,7 +324,8 @@ package plugin
 //@   nopanic [C02.total] [C16.total]
 //@   nonblocking
 //@   requires opts != nil
-//@   modifies opts.VersionedPlugins, heap, Hset, Hidx, Hsrc
+//@   modifies opts.VersionedPlugins, mapof(opts.VersionedPlugins), heap_fresh, Hset, Hidx, Hsrc, stdout_writes
+//@   ensures stdout_writes == old(stdout_writes)   [C16.frame]
 //@   local Hset: set[Int] := emptyset("Int")
 //@   local Hidx: map[Int]Int := Hidx
 //@   local Hsrc: map[Int]Int := Hsrc
@@ -314,6 +340,7 @@ package plugin
 //@   loop#1 invariant cap(clientVersions) == 0 || fresh(clientVersions)
 //@   loop#1 frame fresh_only
 //@   loop#1 invariant rangeindex + 1 <= split_n(vs, ",")
+//@   loop#1 invariant stdout_writes == old(stdout_writes)
 //@   loop#1 invariant forall t :: 0 <= t && t < len(clientVersions) ==> Hset[clientVersions[t]]
 //@   loop#1 invariant forall x :: Hset[x] ==> 0 <= Hidx[x] && Hidx[x] < len(clientVersions) && clientVersions[Hidx[x]] == x
 //@   loop#1 invariant forall x :: Hset[x] ==> 0 <= Hsrc[x] && Hsrc[x] <= rangeindex && atoi_ok(split_arr(vs, ",")[Hsrc[x]]) && atoi_val(split_arr(vs, ",")[Hsrc[x]]) == x
@@ -989,7 +1016,7 @@ package plugin
 //@   nopanic [C07.total]
 //@   nonblocking
 //@   modifies heap_fresh
-//@   ensures result != nil && fresh(result) && result.send != nil && result.recv != nil && result.quit != nil && !closed(result.quit)   [C07.new]
+//@   ensures result != nil && fresh(result) && result.send != nil && result.recv != nil && result.quit != nil && !closed(result.quit) && result.client != nil   [C07.new]
 
 //@ func (*gRPCBrokerClientImpl).Close
 //@   nopanic [C09.total] [C20.nopanic]
@@ -1054,3 +1081,248 @@ package plugin
 //@   modifies heap, cancelled
 //@   after call (plugin.GRPCBroker_StartStreamClient).Recv#1 bind m0: Ref := ret0
 //@   at select#1 assert sent2 == m0   [C07.pump]
+
+// ---------------------------------------------------------------------------------------
+// Serve (C16, C18, C11, C12, C15, C02)
+
+//@ pred cookie_bad(o) := o.MagicCookieKey == "" || o.MagicCookieValue == "" || getenv(o.MagicCookieKey) != o.MagicCookieValue
+
+//@ type ServeConfig
+//@   immutable Test, TLSProvider, GRPCServer, Logger, HandshakeConfig   [C15.serve]
+
+//@ type ServeTestConfig
+//@   immutable Context, ReattachConfigCh, CloseCh, SyncStdio   [C15.serve]
+
+//@ func Serve
+//@   nopanic [C16.total] [C15.total]
+//@   may_panic
+//@   stdout_writer [C16.frame]
+//@   close_once [C15.serve]
+//@   requires opts != nil
+//@   requires opts.Test != nil && opts.Test.CloseCh != nil ==> !closed(opts.Test.CloseCh)
+//@   requires opts.Test != nil && opts.Test.ReattachConfigCh != nil ==> !closed(opts.Test.ReattachConfigCh)
+//@   modifies everything
+//@   entry l0 := listens
+//@   entry w0 := stdout_writes
+//@   entry f0 := files
+//@   entry lsn0 := lsn
+//@   local inited: Bool := false
+//@   local listened: Bool := false
+//@   after call protocolVersion#1 bind pv: Int := ret0
+//@   after call protocolVersion#1 bind pt: Str := ret1
+//@   after call protocolVersion#1 bind pset: Ref := ret2
+//@   after call serverListener#1 bind L0: Iface := ret0
+//@   after call serverListener#1 set listened := ret1 == nil
+//@   after call (ServerProtocol).Init#1 set inited := ret == nil
+//@   at call protocolVersion#1 assert opts.Test == nil ==> !cookie_bad(opts)   [C16.gate]
+//@   at call protocolVersion#1 assert listens == l0 && stdout_writes == w0 && files == f0   [C16.gate]
+//@   at call fmt.Sprintf#1 assert opts.Test == nil && arg0 == "%d|%d|%s|%s|%s|%s" && len(arg1) == 6   [C16.fields]
+//@   at call fmt.Sprintf#1 assert arg1[0] == iface(1) && arg1[1] == iface(pv) && arg1[4] == iface(cast(pt, "Protocol"))   [C16.fields] [C02.serve]
+//@   at call fmt.Sprintf#1 assert arg1[2] == iface(net_of(lis_addr(listener))) && arg1[3] == iface(str_of(lis_addr(listener)))   [C16.fields]
+//@   at call fmt.Sprintf#2 assert arg0 == "|%v" && getenv("PLUGIN_MULTIPLEX_GRPC") != ""   [C16.fields]
+//@   at call fmt.Printf#1 assert opts.Test == nil && arg0 == "%s\n" && stdout_writes == w0 && inited && listened && lsn == lsn0 + 1   [C16.one]
+//@   at store global os.Stdout#1 assert opts.Test == nil ==> stdout_writes == w0 + 1   [C16.swap]
+//@   at go#2 assert opts.Test == nil ==> stdout_writes == w0 + 1   [C16.one]
+//@   at go#2 assert inited && listened   [C16.one]
+//@   at store global os.Stdout#1 assert pipe_reader(value) != nil   [C11.pipe]
+//@   at store global os.Stdout#1 assert opts.Test == nil && pt == "grpc" ==> unbox(server, "*GRPCServer").Stdout == iface(cast(pipe_reader(value), "*os.File"))   [C11.pipe]
+//@   at store global os.Stdout#1 assert opts.Test == nil && pt == "netrpc" ==> unbox(server, "*RPCServer").Stdout == iface(cast(pipe_reader(value), "*os.File"))   [C11.pipe]
+//@   at store global os.Stdout#1 assert opts.Test != nil && pt == "grpc" ==> tee_src(unbox(server, "*GRPCServer").Stdout) == iface(cast(pipe_reader(value), "*os.File"))   [C11.pipe]
+//@   at store global os.Stdout#1 assert opts.Test != nil && pt == "netrpc" ==> tee_src(unbox(server, "*RPCServer").Stdout) == iface(cast(pipe_reader(value), "*os.File"))   [C11.pipe]
+//@   at store global os.Stderr#1 assert opts.Test == nil && pt == "grpc" ==> unbox(server, "*GRPCServer").Stderr == iface(cast(pipe_reader(value), "*os.File"))   [C11.pipe]
+//@   at store global os.Stderr#1 assert opts.Test == nil && pt == "netrpc" ==> unbox(server, "*RPCServer").Stderr == iface(cast(pipe_reader(value), "*os.File"))   [C11.pipe]
+//@   at store global os.Stderr#1 assert opts.Test != nil && pt == "grpc" ==> tee_src(unbox(server, "*GRPCServer").Stderr) == iface(cast(pipe_reader(value), "*os.File"))   [C11.pipe]
+//@   at store global os.Stderr#1 assert opts.Test != nil && pt == "netrpc" ==> tee_src(unbox(server, "*RPCServer").Stderr) == iface(cast(pipe_reader(value), "*os.File"))   [C11.pipe]
+//@   after call x509.NewCertPool#1 bind pool: Ref := ret
+//@   at store tls.Config.ClientAuth#1 bind tc: Ref := object
+//@   at call (*x509.CertPool).AppendCertsFromPEM#1 assert recv == pool && str(arg0) == getenv("PLUGIN_CLIENT_CERT")   [C12.server]
+//@   at call (ServerProtocol).Init#1 assert tlsConfig != nil && pt == "netrpc" ==> tls_cfg(listener) == tlsConfig   [C12.wrap]
+//@   at call (ServerProtocol).Init#1 assert tlsConfig != nil && pt == "grpc" ==> unbox(server, "*GRPCServer").TLS == tlsConfig   [C12.wrap]
+//@   at call (ServerProtocol).Init#1 assert opts.TLSProvider == nil && getenv("PLUGIN_CLIENT_CERT") != "" ==> tlsConfig != nil && tlsConfig == tc && tc.ClientAuth == 4 && tc.ClientCAs == pool && pool_pem(pool) == getenv("PLUGIN_CLIENT_CERT") && tc.MinVersion >= 771   [C12.server]
+//@   at call (ServerProtocol).Init#1 assert opts.TLSProvider == nil && getenv("PLUGIN_CLIENT_CERT") == "" ==> tlsConfig == nil   [C12.server]
+//@   at call (ServerProtocol).Serve#1 assert arg0 == listener && recv == server   [C12.wrap]
+//@   at send#1 assert opts.Test != nil && value != nil && value.Test && value.Protocol == cast(pt, "Protocol") && value.ProtocolVersion == pv && value.Addr == lis_addr(listener)   [C15.serve]
+//@   ensures old(opts.Test == nil) ==> old(!cookie_bad(opts))   [C16.gate]
+//@   ensures old(opts.Test == nil) ==> stdout_writes <= w0 + 1   [C16.one]
+//@   ensures old(opts.Test != nil) ==> stdout_writes == w0   [C15.serve]
+//@   ensures lsn <= lsn0   [C18.serve]
+
+//@ func Serve$1
+//@   inline
+//@   at call os.Exit#1 assert opts.Test == nil   [C15.serve]
+//@   at call os.Exit#1 assert cookie_bad(opts) ==> arg0 == 1 && listens == l0 && stdout_writes == w0 && files == f0   [C16.gate]
+
+//@ func Serve$3
+//@   nopanic [C16.total]
+//@   requires logger != nil
+//@   modifies $LOG, heap_fresh
+//@   loop#1 invariant true
+
+// ---------------------------------------------------------------------------------------
+// Synced stdout/stderr (C11), gRPC server side (C04, C12, C14, C18, C20)
+
+//@ func copyChan
+//@   nopanic [C11.total]
+//@   requires log != nil && dst != nil && src != nil && !closed(dst)
+//@   modifies heap_fresh, rdseq, chseq, $LOG, last_sent_heap
+//@   local last_sent_heap: Int := 0
+//@   after call bufio.NewReader#1 bind bsrc: Ref := ret
+//@   after call (*bufio.Reader).Read#1 bind nread: Int := ret0
+//@   at call (*bufio.Reader).Read#1 bind rbuf := arg0
+//@   at call (*bufio.Reader).Read#1 assert recv == bsrc   [C11.chunk]
+//@   at send#1 assert chan == dst && len(value) == nread && nread > 0 && newer(value, last_sent_heap)   [C11.chunk]
+//@   at send#1 assert str(value) == str_prefix(rbuf, nread)   [C11.chunk]
+//@   at send#1 set chseq := chseq[dst := bcat(chseq[dst], str(value))]
+//@   after send#1 set last_sent_heap := heapnow()
+//@   loop#1 invariant bsrc != nil && rdr_src(bsrc) == src && !closed(dst)
+//@   loop#1 invariant last_sent_heap <= heapnow()
+//@   loop#1 frame fresh_only
+
+//@ func newGRPCStdioServer
+//@   nopanic [C11.total]
+//@   nonblocking
+//@   requires log != nil && srcOut != nil && srcErr != nil
+//@   modifies heap_fresh
+//@   at go#1 bind och: Ref := arg1
+//@   at go#2 bind ech: Ref := arg1
+//@   at go#1 assert arg2 == srcOut   [C11.wire-g]
+//@   at go#2 assert arg2 == srcErr   [C11.wire-g]
+//@   ensures result != nil && result.stdoutCh == och && result.stderrCh == ech && och != ech   [C11.wire-g]
+
+//@ func (*grpcStdioServer).StreamStdio
+//@   nopanic [C11.total]
+//@   bounded peer-dead [C03.c]
+//@   wait select#1 ends with the stream context (client gone) or data from the copy goroutines
+//@   requires s.stdoutCh != nil && s.stderrCh != nil && srv != nil
+//@   modifies heap_fresh
+//@   loop#1 frame fresh_only
+//@   after select#1 bind ssel: Int := index
+//@   after select#1 bind sout := recv0
+//@   after select#1 bind serr := recv1
+//@   at call (plugin.GRPCStdio_StreamStdioServer).Send#1 assert ssel == 0 ==> arg0.Channel == 1 && arg0.Data == sout && len(sout) > 0   [C11.tag]
+//@   at call (plugin.GRPCStdio_StreamStdioServer).Send#1 assert ssel == 1 ==> arg0.Channel == 2 && arg0.Data == serr && len(serr) > 0   [C11.tag]
+//@   at call (plugin.GRPCStdio_StreamStdioServer).Send#1 assert ssel == 0 || ssel == 1   [C11.tag]
+
+//@ func (*grpcStdioClient).Run
+//@   nopanic [C11.total] [C03.d]
+//@   bounded peer-dead [C03.c]
+//@   wait call io.Copy#1 copies from an in-memory reader into the caller-supplied sync writer; it ends when that writer accepts the chunk (caller-owned, assumed non-blocking)
+//@   requires c.log != nil && stdout != nil && stderr != nil
+//@   modifies heap_fresh, hdata, rd_done, $LOG
+//@   loop#1 frame fresh_only
+//@   after call (plugin.GRPCStdio_StreamStdioClient).Recv#1 bind sd: Ref := ret0
+//@   after call bytes.NewReader#1 bind brd: Ref := ret
+//@   at call bytes.NewReader#1 assert arg0 == cast(sd, "*plugin.StdioData").Data   [C11.demux]
+//@   at call io.Copy#1 assert cast(sd, "*plugin.StdioData").Channel == 1 ==> arg0 == stdout   [C11.demux]
+//@   at call io.Copy#1 assert cast(sd, "*plugin.StdioData").Channel == 2 ==> arg0 == stderr   [C11.demux]
+//@   at call io.Copy#1 assert cast(sd, "*plugin.StdioData").Channel == 1 || cast(sd, "*plugin.StdioData").Channel == 2   [C11.demux]
+//@   at call io.Copy#1 assert arg1 == iface(cast(brd, "*bytes.Reader"))   [C11.demux]
+
+//@ func copyStream
+//@   nopanic [C11.total]
+//@   may_panic
+//@   modifies hdata, rd_done
+//@   at call io.Copy#1 assert arg0 == dst && arg1 == src   [C11.wire-r]
+
+
+//@ type GRPCServer
+//@   guarded_by brokerLock: broker   [C20.guard]
+//@   inv this.broker != nil ==> this.broker.streamer != nil && this.broker.doneCh != nil   [C20.close1]
+//@   init_phase (*GRPCServer).Init
+//@   immutable server, stdioServer, TLS, DoneCh, Stdout, Stderr, logger, muxer, Plugins, Server   [C20.guard]
+//@   writers (*GRPCServer).Init
+
+//@ type grpcControllerServer
+//@   immutable server
+
+//@ func (*GRPCServer).Init
+//@   nopanic [nospawn]
+//@   nonblocking
+//@   requires s.Server != nil && s.logger != nil && s.Stdout != nil && s.Stderr != nil && !held(s.brokerLock)
+//@   modifies s.server, s.broker, s.stdioServer, heap_fresh
+//@   at call (GRPCServer).Server#1 assert s.TLS != nil ==> len(arg0) == 1 && arg0[0] == srvopt_creds(creds_tls(s.TLS))   [C12.wrap]
+//@   at call newGRPCBroker#1 assert arg1 == s.TLS   [C12.wrap]
+//@   at call newGRPCStdioServer#1 assert arg1 == s.Stdout && arg2 == s.Stderr   [C11.wire-g]
+//@   after call newGRPCStdioServer#1 bind stdsrv := ret
+//@   at call plugin.RegisterGRPCStdioServer#1 assert arg0 == iface(s.server) && arg1 == iface(stdsrv)   [C11.wire-g]
+//@   ensures result == nil ==> s.broker != nil && s.stdioServer != nil   [C18.srv]
+//@   ensures s.broker != nil ==> s.broker.streamer != nil && s.broker.doneCh != nil   [C20.close1]
+
+//@ func (*GRPCServer).closeBroker
+//@   nopanic [C20.nopanic]
+//@   nonblocking
+//@   requires !held(s.brokerLock)
+//@   modifies heap
+//@   ensures !held(s.brokerLock) && s.broker == nil   [C18.srv] [C20.close1]
+
+//@ func (*GRPCServer).Stop
+//@   nopanic [C20.nopanic]
+//@   requires !held(s.brokerLock)
+//@   modifies heap
+//@   ensures s.broker == nil   [C18.srv]
+
+//@ func (*GRPCServer).GracefulStop
+//@   nopanic [C20.nopanic]
+//@   requires !held(s.brokerLock)
+//@   modifies heap
+//@   ensures s.broker == nil   [C18.srv]
+
+//@ func (*GRPCServer).Serve
+//@   nopanic
+//@   close_once
+//@   requires s.server != nil && s.logger != nil && s.DoneCh != nil && !closed(s.DoneCh)
+//@   modifies $LOG, heap_fresh
+//@   ensures closed(s.DoneCh)   [C04.done]
+
+//@ func (*grpcControllerServer).Shutdown
+//@   nopanic
+//@   requires s.server != nil && !held(s.server.brokerLock)
+//@   modifies heap
+//@   at call (*GRPCServer).Stop#1 assert recv == s.server   [C04.shutdown]
+//@   ensures result0 != nil && result1 == nil
+
+//@ func (*RPCServer).ServeConn
+//@   nopanic [nospawn]
+//@   bounded peer-dead
+//@   requires conn != nil
+//@   modifies heap, yopens, yaccepts
+//@   loop#1 invariant mux != nil && rangeindex + 1 <= 2 && yaccepts[mux] == rangeindex + 2 && len(stdstream) == 2 && fresh(stdstream)
+//@   loop#1 invariant forall j :: 0 <= j && j <= rangeindex ==> typeis(stdstream[j], "*yamux.Stream") && ystream_sess(unbox(stdstream[j], "*yamux.Stream")) == mux && ystream_ord(unbox(stdstream[j], "*yamux.Stream")) == j + 1
+//@   at go#1 assert typeis(arg1, "*yamux.Stream") && ystream_ord(unbox(arg1, "*yamux.Stream")) == 1 && ysess_conn(ystream_sess(unbox(arg1, "*yamux.Stream"))) == conn && arg2 == s.Stdout   [C11.wire-r]
+//@   at go#2 assert typeis(arg1, "*yamux.Stream") && ystream_ord(unbox(arg1, "*yamux.Stream")) == 2 && ysess_conn(ystream_sess(unbox(arg1, "*yamux.Stream"))) == conn && arg2 == s.Stderr   [C11.wire-r]
+
+//@ type GRPCClient
+//@   immutable Conn, Plugins, doneCtx, broker, controller
+//@   writers newGRPCClient
+
+//@ func (*GRPCClient).Dispense
+//@   nopanic [C14.total] [C03.d]
+//@   requires c.Plugins != nil
+//@   modifies heap_fresh
+//@   at call (GRPCPlugin).GRPCClient#1 assert name in c.Plugins && recv == c.Plugins[name] && arg0 == c.doneCtx && arg1 == c.broker && arg2 == c.Conn   [C14.name] [C03.e]
+//@   ensures !(name in c.Plugins) ==> result1 != nil && result0 == nil   [C14.name]
+
+//@ func (*GRPCClient).Ping
+//@   nopanic [C03.d]
+//@   bounded peer-dead [C03.c]
+//@   requires c.Conn != nil
+//@   modifies heap_fresh
+
+//@ func (*GRPCClient).Close
+//@   nopanic [C03.d]
+//@   requires c.broker != nil && c.controller != nil && c.Conn != nil && c.broker.streamer != nil && c.broker.doneCh != nil
+//@   modifies heap
+
+// AutoMTLS, host side (C12)
+
+//@ func (*Client).loadServerCert
+//@   nopanic [C12.total]
+//@   nonblocking
+//@   requires c.config != nil
+//@   modifies c.config.TLSConfig.RootCAs, c.config.TLSConfig.ClientCAs, heap_fresh, pool_der
+//@   ensures c.config.TLSConfig == nil ==> result != nil   [C12.pin]
+//@   ensures (result == nil) <==> (c.config.TLSConfig != nil && b64_ok(cert) && x509_ok(b64_val(cert)))   [C01.b-cert]
+//@   ensures c.config.TLSConfig == old(c.config.TLSConfig)
+//@   ensures result == nil ==> c.config.TLSConfig.RootCAs != nil && fresh(c.config.TLSConfig.RootCAs) && pool_der[c.config.TLSConfig.RootCAs] == bcat(0, b64_val(cert))   [C12.pin]
+//@   ensures result == nil ==> c.config.TLSConfig.ClientCAs == c.config.TLSConfig.RootCAs   [C12.pin]
+//@   ensures result != nil ==> c.config.TLSConfig == nil || (c.config.TLSConfig.RootCAs == old(c.config.TLSConfig.RootCAs) && c.config.TLSConfig.ClientCAs == old(c.config.TLSConfig.ClientCAs))   [C12.pin]
